@@ -59,6 +59,7 @@ type Exec struct {
 	initFacts  []*Term
 
 	Findings   map[string]*Finding
+	regexps    map[int64]string
 
 	// per-function run
 	cur         *funcRun
@@ -224,6 +225,7 @@ type State struct {
 	alloc0 *Term
 	paramVals map[string]Value
 	results  []Value
+	impls    []*Term
 	id int
 }
 
@@ -234,6 +236,7 @@ func (st *State) clone() *State {
 		freshRefs: append([]*Term(nil), st.freshRefs...),
 		decided: map[string]bool{}, ifaceRes: map[*VIface]int{}, ghost: map[string]Value{},
 		boxes: st.boxes, nbox: st.nbox, entry: st.entry, alloc0: st.alloc0, paramVals: st.paramVals,
+		impls: append([]*Term(nil), st.impls...),
 	}
 	for k, v := range st.pcSeen {
 		n.pcSeen[k] = v
@@ -287,6 +290,46 @@ func (st *State) assume(t *Term) {
 	}
 	st.pcSeen[s] = true
 	st.pc = append(st.pc, t)
+	// light forward chaining: a => b with a known gives b
+	if t.Op == "=>" {
+		if st.knows(t.Args[0]) {
+			st.assume(t.Args[1])
+		} else {
+			st.impls = append(st.impls, t)
+		}
+		return
+	}
+	if len(st.impls) > 0 {
+		rest := st.impls[:0:0]
+		var fire []*Term
+		for _, im := range st.impls {
+			if st.knows(im.Args[0]) {
+				fire = append(fire, im.Args[1])
+			} else {
+				rest = append(rest, im)
+			}
+		}
+		st.impls = rest
+		for _, f := range fire {
+			st.assume(f)
+		}
+	}
+}
+
+// knows: t is syntactically among the assumptions (conjunctions component-wise).
+func (st *State) knows(t *Term) bool {
+	if t.IsTrue() {
+		return true
+	}
+	if t.Op == "and" {
+		for _, a := range t.Args {
+			if !st.knows(a) {
+				return false
+			}
+		}
+		return true
+	}
+	return st.pcSeen[t.String()]
 }
 
 func (st *State) top() *Frame { return st.frames[len(st.frames)-1] }
@@ -609,6 +652,9 @@ func (ex *Exec) heapStore(st *State, t types.Type, ref, idx *Term, v Value) {
 
 // flatten a value into leaf terms (order of flattenType).
 func (ex *Exec) flatten(st *State, t types.Type, v Value) []*Term {
+	if typeKey(t) == "reflect.Value" {
+		return []*Term{ex.box(st, v)}
+	}
 	if _, ok := leafSort(t); ok {
 		return []*Term{v.(*Term)}
 	}
@@ -659,6 +705,16 @@ func (ex *Exec) box(st *State, v Value) *Term {
 }
 
 func (ex *Exec) unflatten(st *State, t types.Type, vals []*Term, pos *int) Value {
+	if typeKey(t) == "reflect.Value" {
+		b := vals[*pos]
+		*pos++
+		if id, ok := b.Int64(); ok {
+			if bv, ok := st.boxes[id]; ok {
+				return bv
+			}
+		}
+		return &VReflect{}
+	}
 	if _, ok := leafSort(t); ok {
 		v := vals[*pos]
 		*pos++
